@@ -83,6 +83,7 @@ func runC06(c *core.Ctx) *core.Outcome {
 		o.Probes["flag_indices_beyond_16_bits"]++
 	}
 	cfg.First = t.Chance(1, 3)
+	cfg.Debug = t.Chance(1, 4) // an attached debugger looks, it does not touch
 	cfg.ResetOnEmpty = t.Chance(1, 5) // only exercised while the session is blocked: the model does not know the option
 	a := app.Generate(t, c06Profile(cfg.FlagCount, t.Chance(3, 4), cfg.FlagCount > 16 && t.Chance(3, 4)))
 	if err := a.Validate(); err != nil {
